@@ -32,6 +32,18 @@ claimed = {
              text='Proved for all passwords, names and configurations: with an encrypting message id configured the password slot of the login record (value bytes and length byte) is all zero, the remote-server password slot is zero in every configuration, oversized fields are rejected and never truncated or shifted; the plain flow puts the password into the slot (control). Proof level for the login-record half of the property.',
              note='The other half (what is sent instead decrypts under the server key with fresh randomness; no password in error texts) depends on crypto/rsa, crypto/rand and fmt and is not mechanised; it is not claimed.',
              ref='3 C09'),
+ 'C04': dict(tech='contract-based deductive verification of decoder safety and stream discipline (VCs from go/ssa, z3/cvc5); bounded exhaustive execution (labelled bounded) for the value round trips, which go through encoding/binary, math/big and time',
+             text='Proved for all inputs: the decoders never index or slice outside the byte string for any length the format admits, field readers report a dry stream as ErrNotEnoughBytes, field writers only append. The value-level statement (decode(encode(v)) == v for every data type, exactly or to the tick, NULL as zero length, also inside parameter packages) is decided only on a stated finite domain by executing the real codec against an independent reference; that part is bounded, not proved.',
+             note='Bounded domain: see evidence coverage.bounded (all 8/16-bit integers, boundary and seeded 32/64-bit patterns, float bit patterns, money, decimals of every precision, every (third) day of years 1..9999, sampled ticks, strings over all planes). BLOB is excluded by the property.',
+             ref='3 C04'),
+ 'C05': dict(tech='contract-based deductive verification of decoder safety (VCs from go/ssa, z3/cvc5); bounded exhaustive comparison with an independently written reference codec (labelled bounded)',
+             text='Proved for all inputs: decoder safety. The layout statements (little-endian integers and floats, money high word first, numeric sign plus big-endian magnitude, day / tick / minute / microsecond counts from their epochs, UTF-16LE, calendar helpers equal to the proleptic Gregorian calendar and inverse to each other) are decided on a stated finite domain by executing the real functions against a reference codec written from the property text; for the calendar helpers the domain is the whole of years 1..9999 in the thorough tier. Bounded, not proved.',
+             note='The reference codec is trusted. encoding/binary, math/big and time cannot be brought under contract by the generator, hence no unbounded claim for the layouts.',
+             ref='3 C05'),
+ 'C06': dict(tech='contract-based deductive verification: length-field postconditions of the package writers over the ghost output stream, login record layout contract (VCs from go/ssa, z3/cvc5); bounded execution (labelled bounded) for read-back equality',
+             text='Proved for all field values that fit the width of the length field: the length written after the token equals the number of bytes that follow it for the cursor packages, EED, ERROR, OPTIONCMD, LANGUAGE and MSG; DONE has its fixed size; the login record has its fixed layout and rejects oversized fields instead of truncating or shifting them. Read-back equality (ReadFrom(WriteTo(p)) == p, bytes consumed exactly) is decided on a stated finite domain by executing the real code; that part is bounded, not proved.',
+             note='Unclaimed: ENVCHANGE and LOGINACK length clauses, CAPABILITY (outside the generator subset). Server-only packages the library cannot write have no read-back inside the library. Three genuine defects were repaired (EED length field, ERROR state/class bytes, RETURNSTATUS token).',
+             ref='3 C06'),
  'C07': dict(tech='contract-based deductive verification: interface contract on Package/FieldFmt/FieldData.ReadFrom over a ghost byte stream, VCs from go/ssa, z3/cvc5',
              text='Every parser implementation is proved, for all inputs and loop iterations, to return an error matching ErrNotEnoughBytes whenever the abstract stream ran dry during the call, and to leave the dry flag unchanged on success. Proof level because the claim is a per-function postcondition that the VC generator discharges without bounds.',
              note='Assumes the BytesChannel contract (stream semantics) for the channel passed in, closed world of FieldFmt/FieldData/Package implementations, sentinel error variables never reassigned, integers modelled mathematically with explicit wrap, goroutines not modelled. Re-parse after rollback (fresh package per attempt) is part of C02.',
